@@ -2303,6 +2303,9 @@ def select_functions(ast, unit):
             cur = chosen.get(key)
             if cur is None or (has_body(n) and not has_body(cur[0])):
                 chosen[key] = (n, w)
+    # 'optional': a function that does not exist on the unchanged tree but would carry part of a property if it were added (an override of a
+    # library virtual, e.g. DynamicStreamBuf::xsputn): under contract when present, absent otherwise
+    want = [w for w in want if not w.get('optional') or (w['q'], w.get('sig') or w.get('sig_exact'), str(w.get('targs')) + str(w.get('class_targ'))) in chosen]
     missing = [w['q'] + (' ' + w['sig'] if w.get('sig') else '') for w in want if (w['q'], w.get('sig') or w.get('sig_exact'), str(w.get('targs')) + str(w.get('class_targ'))) not in chosen]
     if missing:
         raise Abort('functions listed in the unit but not found in the AST (renamed or removed?): %s' % ', '.join(missing))
